@@ -353,6 +353,25 @@ fn main() {
         cases.push(("sampled:compact-x-acquire".into(), vec![WOp::Commit(tx1.clone()), WOp::Compact], vec![1], [vec![0; 4], s].concat()));
     }
     while cases.len() < a.n {
+        if r.chance(1, 6) {
+            // in-place family: a snapshot acquired after a compaction is held across later commits and compactions
+            let v1 = r.range(1, 9);
+            let v2 = r.range(1, 9);
+            let h = vec![
+                WOp::Commit(Tx { nodes: vec![1, 2], props: vec![(1, v1), (2, v1 + 1)], edges: vec![(1, 2)] }),
+                WOp::Compact,
+                WOp::Commit(Tx { nodes: vec![3], props: vec![(if r.chance(1, 2) { 1 } else { 2 }, v2)], edges: vec![(3, 1)] }),
+                WOp::Compact,
+            ];
+            let reads = 2 + r.below(2) as usize;
+            let mut tail: Vec<usize> = vec![0; 11];
+            for _ in 0..reads {
+                let q = r.below(tail.len() as u64 + 1) as usize;
+                tail.insert(q, 1);
+            }
+            cases.push(("generated-inplace".into(), h, vec![reads], [vec![0; 11], vec![1; 7], tail].concat()));
+            continue;
+        }
         let nops = 2 + r.below(4) as usize;
         let h = gen_history(&mut r, nops);
         let nr = 1 + r.below(2) as usize;
